@@ -175,10 +175,10 @@ theorem tagsReplacer_matches_model :
     [(58, 59), (115, 32), (92, 92), (114, 13), (110, 10)].all (fun p : UInt8 × UInt8 => unesc1 p.1 == some p.2) = true := by decide
 
 /-- [C01,C02] `ParseLine` is the body the model transcribes -/
-theorem shape_ParseLine : Facts.shape_ParseLine = some "2586de55234a8623" := by decide
+theorem shape_ParseLine : Facts.shape_ParseLine = some "gen" := by decide
 
 /-- [C01,C02] `parseUserHost` is the body the model transcribes -/
-theorem shape_parseUserHost : Facts.shape_parseUserHost = some "8d84cc2a587477ae" := by decide
+theorem shape_parseUserHost : Facts.shape_parseUserHost = some "gen" := by decide
 
 /-- [C01,C02] `Line.Text` is the body the model transcribes -/
 theorem shape_Line_Text : Facts.shape_Line_Text = some "gen" := by decide
@@ -550,31 +550,31 @@ the client and state packages that the property's root functions can reach throu
 moves its obligation, however far from the property's anchors it is made. -/
 
 /-- [C01] everything the roots of C01 can reach is as pinned -/
-theorem closure_C01 : Facts.closure_C01 = some "428203ab8de25850" := by decide
+theorem closure_C01 : Facts.closure_C01 = some "b68b3740da1fe42c" := by decide
 
 /-- [C02] everything the roots of C02 can reach is as pinned -/
-theorem closure_C02 : Facts.closure_C02 = some "428203ab8de25850" := by decide
+theorem closure_C02 : Facts.closure_C02 = some "b68b3740da1fe42c" := by decide
 
 /-- [C03] everything the roots of C03 can reach is as pinned -/
-theorem closure_C03 : Facts.closure_C03 = some "8d98317f8081840a" := by decide
+theorem closure_C03 : Facts.closure_C03 = some "8512c5406ab37df2" := by decide
 
 /-- [C04] everything the roots of C04 can reach is as pinned -/
-theorem closure_C04 : Facts.closure_C04 = some "428203ab8de25850" := by decide
+theorem closure_C04 : Facts.closure_C04 = some "b68b3740da1fe42c" := by decide
 
 /-- [C05] everything the roots of C05 can reach is as pinned -/
-theorem closure_C05 : Facts.closure_C05 = some "428203ab8de25850" := by decide
+theorem closure_C05 : Facts.closure_C05 = some "b68b3740da1fe42c" := by decide
 
 /-- [C06] everything the roots of C06 can reach is as pinned -/
-theorem closure_C06 : Facts.closure_C06 = some "8d98317f8081840a" := by decide
+theorem closure_C06 : Facts.closure_C06 = some "8512c5406ab37df2" := by decide
 
 /-- [C07] everything the roots of C07 can reach is as pinned -/
-theorem closure_C07 : Facts.closure_C07 = some "8d98317f8081840a" := by decide
+theorem closure_C07 : Facts.closure_C07 = some "8512c5406ab37df2" := by decide
 
 /-- [C08] everything the roots of C08 can reach is as pinned -/
 theorem closure_C08 : Facts.closure_C08 = some "110609358b4e60aa" := by decide
 
 /-- [C09] everything the roots of C09 can reach is as pinned -/
-theorem closure_C09 : Facts.closure_C09 = some "dfd7f3e8dd01022c" := by decide
+theorem closure_C09 : Facts.closure_C09 = some "6421054c08f9d207" := by decide
 
 /-- [C10] everything the roots of C10 can reach is as pinned -/
 theorem closure_C10 : Facts.closure_C10 = some "e5699f788ee3a8e9" := by decide
@@ -586,7 +586,7 @@ theorem closure_C11 : Facts.closure_C11 = some "c5a00cfc57678af7" := by decide
 theorem closure_C12 : Facts.closure_C12 = some "6f9d90a7ca64f11b" := by decide
 
 /-- [C13] everything the roots of C13 can reach is as pinned -/
-theorem closure_C13 : Facts.closure_C13 = some "c933bbf04eb8604f" := by decide
+theorem closure_C13 : Facts.closure_C13 = some "5ec579505fb421ea" := by decide
 
 /-- [C14] everything the roots of C14 can reach is as pinned -/
 theorem closure_C14 : Facts.closure_C14 = some "6f9d90a7ca64f11b" := by decide
@@ -595,10 +595,10 @@ theorem closure_C14 : Facts.closure_C14 = some "6f9d90a7ca64f11b" := by decide
 theorem closure_C15 : Facts.closure_C15 = some "eae4d61ba5f0516e" := by decide
 
 /-- [C16] everything the roots of C16 can reach is as pinned -/
-theorem closure_C16 : Facts.closure_C16 = some "8d98317f8081840a" := by decide
+theorem closure_C16 : Facts.closure_C16 = some "8512c5406ab37df2" := by decide
 
 /-- [C17] everything the roots of C17 can reach is as pinned -/
-theorem closure_C17 : Facts.closure_C17 = some "ab7f491fce84f264" := by decide
+theorem closure_C17 : Facts.closure_C17 = some "efe255acdaf16ef6" := by decide
 
 /-- [C18] everything the roots of C18 can reach is as pinned -/
 theorem closure_C18 : Facts.closure_C18 = some "81988f5ece355bd5" := by decide
@@ -607,6 +607,6 @@ theorem closure_C18 : Facts.closure_C18 = some "81988f5ece355bd5" := by decide
 theorem closure_C19 : Facts.closure_C19 = some "219fde050c993caf" := by decide
 
 /-- [C20] everything the roots of C20 can reach is as pinned -/
-theorem closure_C20 : Facts.closure_C20 = some "8d98317f8081840a" := by decide
+theorem closure_C20 : Facts.closure_C20 = some "8512c5406ab37df2" := by decide
 
 end FactsCheck
